@@ -27,6 +27,22 @@ let run inp obs : string option * string option =
     (match spec with
      | Some e -> (Some e, None)
      | None -> (None, tie c got))
+  | ["C07X"; _schema; _rule; _caps; _query; _body; _oracles; expect], [o] ->
+    (* the query also carries a key that cannot be applied: refusing the request is fine, but a handler
+       that is reached sees the captures in the path-bound fields *)
+    (match parse_obs o with
+     | RPanic -> (Some "the server panicked", None)
+     | RErr _ -> (None, None)
+     | ROk m ->
+       (L.find_map (fun pe ->
+            let i = String.index pe '=' in
+            let p = L.map n_of_string (String.split_on_char '.' (String.sub pe 0 i)) in
+            let want = canon (tree_of_string (String.sub pe (i + 1) (String.length pe - i - 1))) in
+            let have = under p m in
+            if have = want then None
+            else Some (Printf.sprintf "path-bound field %s (request with an inapplicable query key): the URL path captured %s, the handler received %s"
+                         (String.sub pe 0 i) (string_of_tree want) (string_of_tree have)))
+          (split_on ',' expect), None))
   | _ -> (Some "unparsable C07 case", None)
 
 (* C07W: the path-bound field on a WebSocket call; first message = capture, whatever query and frame say *)
@@ -44,5 +60,16 @@ let run_w inp obs : string option * string option =
        else if u2 <> "second-frame" then (Some (Printf.sprintf "%s: the second message carries user_id %S, its frame said \"second-frame\"" what u2), None)
        else (None, None)
      | _ -> (Some (Printf.sprintf "%s: the handler did not receive the two messages (%s)" what o), None))
+  | ["C07W"; capture; q; body; lead], [o] ->
+    let cap = bytes_str (bytes_of_hex capture) in
+    if o = "-" then (None, None) else
+    (match String.split_on_char ',' o with
+     | m1 :: _ ->
+       let u1 = match String.split_on_char '/' m1 with [u; _] -> bytes_str (bytes_of_hex u) | _ -> "?" in
+       if u1 <> cap then
+         (Some (Printf.sprintf "WebSocket /c07w/{user_id} with capture %S, query key %s, competing fields %s, after an empty %s frame: the first message reached the handler with user_id %S"
+                  cap q body (if lead = "B" then "binary" else "text") u1), None)
+       else (None, None)
+     | [] -> (None, None))
   | _ -> (Some "unparsable C07W case", None)
-let () = Evalreg.register "C07" run; Evalreg.register "C07W" run_w
+let () = Evalreg.register "C07" run; Evalreg.register "C07X" run; Evalreg.register "C07W" run_w
